@@ -4,6 +4,7 @@ import (
 	"bytes"
 	"fmt"
 	"io"
+	"strings"
 	"testing"
 
 	"github.com/parquet-go/parquet-go"
@@ -25,6 +26,7 @@ type RepNestCase struct {
 	Entry string    `json:"entry"`
 	Batch int       `json:"batch"`
 	NoID  bool      `json:"noid,omitempty"`
+	Roots bool      `json:"roots,omitempty"` // Convert is given the Group nodes, not schemas
 }
 
 var reps = []string{"rep", "opt", "req"}
@@ -64,6 +66,7 @@ func genRepNestCase(t *rapid.T) RepNestCase {
 	c.Entry = []string{"ConvertRowGroup", "NewReader(schema)", "CopyRows", "Conversion.Convert"}[rapid.IntRange(0, 3).Draw(t, "entry")]
 	c.Batch = []int{1, 2, 7, 64}[rapid.IntRange(0, 3).Draw(t, "batch")]
 	c.NoID = rapid.IntRange(0, 2).Draw(t, "noid") == 0
+	c.Roots = rapid.IntRange(0, 3).Draw(t, "roots") == 0
 	return c
 }
 
@@ -144,14 +147,20 @@ func firstOnly(groups [][]int, tgt [2]string) [][]int {
 }
 
 func runRepNestCase(c RepNestCase, o *kit.Obs) *kit.Failure {
-	mk := func(r [2]string) *parquet.Schema {
+	mkg := func(r [2]string) parquet.Group {
 		g := parquet.Group{"g": repNode(r[0], parquet.Group{"x": repNode(r[1], parquet.Int(64))})}
 		if !c.NoID {
 			g["a"] = parquet.Int(64)
 		}
-		return parquet.NewSchema("t", g)
+		return g
 	}
-	src, tgt := mk(c.Src), mk(c.Tgt)
+	src, tgt := parquet.NewSchema("t", mkg(c.Src)), parquet.NewSchema("t", mkg(c.Tgt))
+	convert := func() (parquet.Conversion, error) {
+		if c.Roots {
+			return parquet.Convert(mkg(c.Tgt), mkg(c.Src))
+		}
+		return parquet.Convert(tgt, src)
+	}
 	col := 1
 	if c.NoID {
 		col = 0
@@ -216,7 +225,7 @@ func runRepNestCase(c RepNestCase, o *kit.Obs) *kit.Failure {
 		}()
 		switch c.Entry {
 		case "Conversion.Convert":
-			conv, cerr := parquet.Convert(tgt, src)
+			conv, cerr := convert()
 			if cerr != nil {
 				rerr = cerr
 				return
@@ -234,7 +243,7 @@ func runRepNestCase(c RepNestCase, o *kit.Obs) *kit.Failure {
 				}
 			}
 		case "ConvertRowGroup":
-			conv, cerr := parquet.Convert(tgt, src)
+			conv, cerr := convert()
 			if cerr != nil {
 				rerr = cerr
 				return
@@ -294,6 +303,9 @@ func runRepNestCase(c RepNestCase, o *kit.Obs) *kit.Failure {
 		}
 	}()
 	o.Class("entry-" + c.Entry)
+	if rerr != nil && strings.HasPrefix(rerr.Error(), "panic: ") {
+		return kit.Failf("c12/repnested/panic"+feat, "%v", rerr)
+	}
 	changed := 0
 	for i := range c.Src {
 		if (c.Src[i] == "rep") != (c.Tgt[i] == "rep") {
